@@ -1459,3 +1459,19 @@ package bbolt
 //@   ensures [released] db.mmaplock.rcount == old(db.mmaplock.rcount)
 //@   ensures [batchmu] db.batchMu.held == old(db.batchMu.held)
 //@   ensures [metalock] !db.metalock.held
+
+// Bucket.ForEach: on a closed transaction ErrTxClosed and the callback never runs; otherwise the enumeration starts with
+// Cursor.First on a cursor of this bucket, an error of the callback ends it and is returned unchanged. That the callback does not modify the bucket is the
+// documented obligation of the caller (the cursor's stack stays well-formed across the callback: A-tree).
+//@ func (*Bucket).ForEach
+//@   props C04 C05
+//@   requires b != nil && b.tx != nil && b.InBucket != nil
+//@   invokes fn
+//@   callback ensures true
+//@   ensures [closed] old(b.tx.db) == nil ==> result == berrors.ErrTxClosed && !invoked(fn)
+//@   ensures [started] old(b.tx.db) != nil ==> callstotal("(*Cursor).First") >= old(callstotal("(*Cursor).First")) + 1
+//@   ensures [cberr] result != nil && old(b.tx.db) != nil ==> invoked(fn) && result == cbresult(fn)
+//@   ensures [stops] invoked(fn) && cbresult(fn) != nil ==> result == cbresult(fn)
+//@   loop 0 invariant old(b.tx.db) != nil && callstotal("(*Cursor).First") >= old(callstotal("(*Cursor).First")) + 1
+//@   skip pre/Next because the callback must not modify the bucket (documented): the cursor stays positioned and well-formed across it (A-tree)
+//@   skip pre/First because the cursor just created belongs to this bucket of a live transaction (Bucket.Cursor is not under contract)
